@@ -152,16 +152,35 @@ pub fn sweep_values(width: u8, tier: Tier) -> Vec<u64> {
     }
 }
 
-/// One work unit = one leaf under one context. Returns the de-duplicated case list.
+/// A generated case with the properties owning the field(s) that were varied to produce it
+/// (0 = none: base frame, or a bit outside every judged field).
+#[derive(Clone, Debug, PartialEq, Eq, PartialOrd, Ord)]
+pub struct Case {
+    pub bytes: Vec<u8>,
+    pub owners: (u8, u8),
+}
+
 pub fn unit_cases(leaf: &LeafSpec, ctx: &[u8], tier: Tier, sweep: bool, pairs: bool) -> Vec<Vec<u8>> {
+    unit_cases_tagged(leaf, ctx, tier, sweep, pairs).into_iter().map(|c| c.bytes).collect()
+}
+
+/// One work unit = one leaf under one context. Returns the de-duplicated case list; the first
+/// element is always the base frame of the unit.
+pub fn unit_cases_tagged(leaf: &LeafSpec, ctx: &[u8], tier: Tier, sweep: bool, pairs: bool) -> Vec<Case> {
     let mut base = ctx.to_vec();
     for (first, width, val) in &leaf.fixed {
         set_bits(&mut base, *first as usize, *width as usize, *val);
     }
-    let mut out: Vec<Vec<u8>> = vec![base.clone()];
+    let mut out: Vec<Case> = vec![];
     let lay = match layout(&base) {
         Ok(l) => l,
-        Err(_) => return out,
+        Err(_) => return vec![Case { bytes: base, owners: (0, 0) }],
+    };
+    let owner_of_bit = |bit: usize| -> u8 {
+        lay.fields
+            .iter()
+            .find(|f| f.prop != 0 && bit >= f.first as usize && bit < f.first as usize + f.width as usize)
+            .map_or(0, |f| f.prop)
     };
     // bit-walk over non-dispatch bits
     for bit in 1..=leaf.nbits {
@@ -170,7 +189,7 @@ pub fn unit_cases(leaf: &LeafSpec, ctx: &[u8], tier: Tier, sweep: bool, pairs: b
         }
         let mut b = base.clone();
         flip_bit(&mut b, bit);
-        out.push(b);
+        out.push(Case { bytes: b, owners: (owner_of_bit(bit), 0) });
     }
     if sweep {
         for fd in &lay.fields {
@@ -180,7 +199,7 @@ pub fn unit_cases(leaf: &LeafSpec, ctx: &[u8], tier: Tier, sweep: bool, pairs: b
                     for c in 0..64u64 {
                         let mut b = base.clone();
                         set_bits(&mut b, (fd.first + 6 * pos) as usize, 6, c);
-                        out.push(b);
+                        out.push(Case { bytes: b, owners: (fd.prop, 0) });
                     }
                 }
                 continue;
@@ -191,7 +210,7 @@ pub fn unit_cases(leaf: &LeafSpec, ctx: &[u8], tier: Tier, sweep: bool, pairs: b
             for v in sweep_values(fd.width, tier) {
                 let mut b = base.clone();
                 set_bits(&mut b, fd.first as usize, fd.width as usize, v);
-                out.push(b);
+                out.push(Case { bytes: b, owners: (fd.prop, 0) });
             }
         }
     }
@@ -211,14 +230,16 @@ pub fn unit_cases(leaf: &LeafSpec, ctx: &[u8], tier: Tier, sweep: bool, pairs: b
                         for (first, width, val) in &leaf.fixed {
                             set_bits(&mut b, *first as usize, *width as usize, *val);
                         }
-                        out.push(b);
+                        out.push(Case { bytes: b, owners: (a.prop, b_.prop) });
                     }
                 }
             }
         }
     }
     out.sort();
-    out.dedup();
+    out.dedup_by(|x, y| x.bytes == y.bytes);
+    out.retain(|c| c.bytes != base);
+    out.insert(0, Case { bytes: base, owners: (0, 0) });
     out
 }
 
